@@ -703,7 +703,7 @@ impl Case for C18Case {
                 let prog: Vec<String> = ["10 X=X+1:RETURN", "20 DATA 1,2,3"].iter().map(|s| s.to_string()).collect();
                 enter_program(&mut w, &prog);
                 w.quiet = true;
-                let line = ["A=1", "FOR I=1 TO 2:NEXT", "GOSUB 10", "PRINT 1;", "WHILE 0:WEND:IF 1 THEN A=2 ELSE A=3", "READ Q:RESTORE", "A=", "GOTO 99"][(*variant as usize) % 8];
+                let line = ["A=1", "FOR I=1 TO 2:NEXT", "GOSUB 10", "PRINT 1;", "WHILE 0:WEND:IF 1 THEN A=2 ELSE A=3", "READ Q:RESTORE", "A=", "GOTO 99", "DATA 1,2,3", "IF 1 THEN DATA \"A\",5"][(*variant as usize) % 10];
                 let s0 = sizes(&w);
                 let mut first_err: Option<String> = None;
                 for i in 0..70_000u32 {
@@ -965,7 +965,7 @@ impl Property for C18 {
                 }
             }
             85..=86 => Kind::SelfRestart { variant: rng.below(3) as u32 },
-            87 => Kind::RepeatDirect { variant: rng.below(8) as u32 },
+            87 => Kind::RepeatDirect { variant: rng.below(10) as u32 },
             88 => Kind::RepeatInterrupted { variant: rng.below(5) as u32 },
             89..=95 => Kind::Limit {
                 which: rng.below(8) as u32,
